@@ -11,6 +11,7 @@ QUICK_LEVEL = "thorough"      # the larger case set costs only seconds
 THOROUGH_SEEDS = 8
 GEN = [constants.gen]
 TIE = ['Ufw.Tie.RegTable']
+EXTRA_MODULES = ['Ufw.Props.C02Iff']      # second part of the property theorems (needs lemmas built on Props/C02)
 RULE = ("small-scope table family: 1-3 areas (adjacent or separated by a hole; read-write, read-only flag, write-only flag, callback-backed, "
         "without write callback) holding u16/u32/u64/f32/f64 registers with every constraint kind placed at every alignment; EVERY "
         "(address, length) inside a window that covers all areas, holes and both edges; word patterns: all zero, all ones, the constraint "
@@ -26,7 +27,9 @@ ASSUMPTIONS = [
 TRUSTED = ["correspondence harness harness/h_regtable.c + tools/lib/vf.py"]
 DESIGN_REF = "DESIGN.md section 8, C02"
 TECHNIQUE = "Lean 4 proofs over the register-table model (block write all-or-nothing, effect on exactly n atoms, failure address, bounds of the overlay) + exhaustive (address, length) windows in the differential correspondence"
-LEVEL_TEXT = ("Machine-checked proof over the Lean model of register_block_write: a refused write leaves every atom and every touched mark unchanged; a successful one changes "
+LEVEL_TEXT = ("Machine-checked proof over the Lean model of register_block_write: it succeeds exactly when every touched area is writable, every addressed word is mapped and every "
+              "overlapped register still decodes and satisfies its constraint with the new words overlaid (block_write_success_iff), the failure classes are tried in that order "
+              "(decision); a refused write leaves every atom and every touched mark unchanged; a successful one changes "
               "exactly the n addressed atoms to the given words and marks exactly the overlapped registers; the overlay used for validation stays inside the four-atom "
               "scratch and the caller's n atoms for every alignment; n = 0 succeeds without effect.  Tied to the C code by exhaustive (address, length) windows over the "
               "small-scope table family with adversarial word patterns.")
